@@ -230,18 +230,32 @@ def strip_lean_comments(text):
     return text
 
 
-def grep_forbidden(lean_dir):
-    hits = []
-    for root, dirs, files in os.walk(lean_dir):
-        if '.lake' in root.split(os.sep):
+def import_closure(lean_dir, modules):
+    """files of the project that the given modules (transitively) import"""
+    seen, todo = {}, list(modules)
+    while todo:
+        m = todo.pop()
+        if m in seen:
             continue
-        for fn in files:
-            if fn.endswith('.lean'):
-                p = os.path.join(root, fn)
-                txt = strip_lean_comments(open(p).read())
-                for i, line in enumerate(txt.splitlines(), 1):
-                    if FORBIDDEN.search(line):
-                        hits.append(f'{os.path.relpath(p, lean_dir)}:{i}: {line.strip()[:120]}')
+        path = os.path.join(lean_dir, m.replace('.', '/') + '.lean')
+        if not os.path.exists(path):
+            continue   # core / Std / Mathlib
+        seen[m] = path
+        for line in open(path):
+            mm = re.match(r'\s*(?:public\s+)?import\s+([\w.]+)', line)
+            if mm:
+                todo.append(mm.group(1))
+    return seen
+
+
+def grep_forbidden(lean_dir, modules):
+    """forbidden constructs in every project file the property's theorems (and its driver) depend on"""
+    hits = []
+    for m, p in sorted(import_closure(lean_dir, modules).items()):
+        txt = strip_lean_comments(open(p).read())
+        for i, line in enumerate(txt.splitlines(), 1):
+            if FORBIDDEN.search(line):
+                hits.append(f'{os.path.relpath(p, lean_dir)}:{i}: {line.strip()[:120]}')
     return hits
 
 
@@ -305,7 +319,8 @@ def prove(ctx, plugin):
             res['failed_theorems'].append(t + ' (inadmissible axioms ' + ','.join(bad) + ')')
         else:
             res['discharged'] += 1
-    res['forbidden'] = grep_forbidden(ctx.lean_dir)
+    res['forbidden'] = grep_forbidden(ctx.lean_dir, list(plugin.LEAN_TARGETS) + [f'ChibiVerif.Driver.{plugin.PROPERTY}Main'])
+    res['files_audited'] = sorted(os.path.relpath(p, ctx.lean_dir) for p in import_closure(ctx.lean_dir, list(plugin.LEAN_TARGETS) + [f'ChibiVerif.Driver.{plugin.PROPERTY}Main']).values())
     if res['forbidden']:
         res['ok'] = False
         res['failed_theorems'].append('forbidden construct: ' + res['forbidden'][0])
@@ -361,6 +376,7 @@ def write_evidence(ctx, plugin, proof, corr, violations, extra=None):
         'theorems': proof.get('theorems', []),
         'axioms': proof.get('axioms', {}),
         'open_statements': proof.get('open_statements', []),
+        'lean_files_audited': proof.get('files_audited', []),
         'generated_model_changed': ctx.gen_changed,
         'translator_errors': ctx.gen_errors,
         'evaluations': corr.evaluations,
